@@ -15,6 +15,7 @@ Definition item_ok (o : Prop) (i : item) : Prop :=
   | IStream _ r _ => res_ok o r | IBlock _ _ r => res_ok o r | IFrag _ r => res_ok o r
   | IRead _ _ _ r => res_ok o r | IXal r => res_ok o r
   | IXattr _ (Some r) => res_ok o r | IXattr _ None => True | IMeta r => res_ok o r
+  | IComp r => res_ok o r
   end.
 
 Lemma res_ok_weaken {A} o (r : res A) Q : post o r Q -> res_ok o r.
@@ -22,12 +23,12 @@ Proof. intros H. eapply post_weaken; [exact H|auto]. Qed.
 
 Lemma item_ok_crash o i : item_ok o i -> item_crash i = false.
 Proof.
-  destruct i as [r|r|r|r|? r ?|? ? r|? r|? ? ? r|r|? [r|]|r]; simpl; try reflexivity;
+  destruct i as [r|r|r|r|? r ?|? ? r|? r|? ? ? r|r|? [r|]|r|r]; simpl; try reflexivity;
     destruct r; simpl; try reflexivity; contradiction.
 Qed.
 Lemma item_ok_oof i : item_ok False i -> item_oof i = false.
 Proof.
-  destruct i as [r|r|r|r|? r ?|? ? r|? r|? ? ? r|r|? [r|]|r]; simpl; try reflexivity;
+  destruct i as [r|r|r|r|? r ?|? ? r|? r|? ? ? r|r|? [r|]|r|r]; simpl; try reflexivity;
     destruct r; simpl; try reflexivity; contradiction.
 Qed.
 
